@@ -15,7 +15,7 @@ use tvh::guarded;
 use tvh::out::CaseOut;
 use tvh::rng::Rng;
 
-use super::c08_columnar::{check_column, f82_column, gen_rows, observe, Kind, Val};
+use super::c08_columnar::{check_column, f82_column, gen_near_miss, gen_rows, near_miss_vocab, observe, rows_from_vocab, Kind, NearMiss, Val};
 
 struct FieldSpec { name: &'static str, kind: Kind, shape: u64, json_path: Option<&'static str> }
 
@@ -96,6 +96,7 @@ fn one_index(rng: &mut Rng, out: &mut CaseOut, ix: usize, thorough: bool) -> Res
     writer.set_merge_policy(Box::new(tantivy::merge_policy::NoMergePolicy));
 
     let n_commits = rng.range(2, 4) as usize;
+    let near: Option<NearMiss> = if ix % 2 == 0 { out.count("tantivy_indexes_near_miss_vocabularies", 1); Some(gen_near_miss(rng)) } else { None };
     let big = thorough && ix % 5 == 2;
     let mut docs: Vec<BTreeMap<&'static str, Vec<Val>>> = vec![];
     for c in 0..n_commits {
@@ -105,6 +106,14 @@ fn one_index(rng: &mut Rng, out: &mut CaseOut, ix: usize, thorough: bool) -> Res
         for f in FIELDS.iter() {
             let shape = if rng.chance(1, 6) { rng.below(4) } else { f.shape };
             let density = *rng.pick(&[65536u64, 60000, 30000, 5200, 5000, 600]);
+            // every other index: the Str / Bytes fields of the commits (= segments) get near-miss vocabularies
+            // (same number of terms, same extremes, same length profile, different middle terms)
+            if let (Some(nm), true) = (&near, matches!(f.kind, Kind::Str | Kind::Bytes)) {
+                let bytes = f.kind == Kind::Bytes;
+                let vocab = near_miss_vocab(rng, nm, bytes);
+                per_field.push(rows_from_vocab(rng, &vocab, nd, f.shape, bytes));
+                continue;
+            }
             per_field.push(gen_rows(rng, f.kind, nd, shape, density));
         }
         for d in 0..nd {
@@ -172,6 +181,7 @@ fn one_index(rng: &mut Rng, out: &mut CaseOut, ix: usize, thorough: bool) -> Res
     // deletes, then merge everything
     let mut deleted = vec![false; docs.len()];
     let del_pct = *rng.pick(&[0u64, 0, 10, 50, 95]);
+    let del_pct = if near.is_some() && ix % 4 == 0 { 0 } else { del_pct };      // a merge without deletes stacks the segments
     for id in 0..docs.len() { if rng.below(100) < del_pct { deleted[id] = true; writer.delete_term(Term::from_field_u64(id_f, id as u64)); } }
     writer.commit().map_err(|e| e.to_string())?;
     let seg_ids = index.searchable_segment_ids().map_err(|e| e.to_string())?;
